@@ -7,6 +7,7 @@
 import GoSnaps.Driver
 import GoSnaps.Json
 import GoSnaps.JsonPath
+import GoSnaps.Natural
 namespace GoSnaps
 
 def crlfAll (t : Text) : Text := t.flatMap (fun c => if c = nl then [cr, nl] else [c])
@@ -27,6 +28,14 @@ def jsonfmtOp (doc sk ind width : String) : Option String :=
     let out := if v then Json.pretty { width := w, indent := i, sortKeys := sk = "1" } d else []
     some ("jsonfmt valid=" ++ (if v then "1" else "0") ++ " parse=" ++ (if p then "1" else "0") ++ " out=" ++ hexOf out)
   | _, _, _ => none
+
+/-- `natless <hex a> <hex b>`: the model of `maruel/natural.Less` on its own (C10; `Natural.lean`, the function
+`Lemmas/NaturalOrder.lean` proves a strict total order on canonical ids), both ways round -/
+def natlessOp (a b : String) : Option String :=
+  match unhex a, unhex b with
+  | some x, some y =>
+    some ("natless less=" ++ (if naturalLess x y then "1" else "0") ++ " rev=" ++ (if naturalLess y x then "1" else "0"))
+  | _, _ => none
 
 /-! `jsonpath <o0|o1>[a] <hex doc> (<hex path> <value> <hex enc>)+` (`o1` = `Optimistic: true`, go-snaps' setting;
 `a` asks the harness to cross-check match.Any / match.Custom): the JSON lens model on its own (C15 / C16,
@@ -118,6 +127,10 @@ def stepX (s : DState) (line : String) : DState × Option String :=
     | none => bad s line
   | ["jsonfmt", doc, sk, ind, width] =>
     match jsonfmtOp doc sk ind width with
+    | some r => (s, some r)
+    | none => bad s line
+  | ["natless", a, b] =>
+    match natlessOp a b with
     | some r => (s, some r)
     | none => bad s line
   | ["fscrlf", mode, p] =>
